@@ -358,8 +358,11 @@ Qed.
 Example C08_ex_no_expiry :
   let c0 := new (V:=Z) 0 5 in
   let c1 := fst (set Z rej0 c0 1 7 0 100) in
-  stored_by Z rej0 c0 1 7 0 100 c1 /\ eff Z c0 0 <= 0 /  let ops := [(OTick, 105); (ODeleteExpired, 1000000); (OTick, 2000000); (OSet Z 1 8 (-1), 2000001)] in
-  Forall (fun on => overwrites Z 1 (fst on) = false) ops /  nondecr 100 (map snd ops ++ [3000000]) /  get (fst (run Z rej0 c1 ops)) 1 3000000 = (Some (mkItem 7 0), None).
+  stored_by Z rej0 c0 1 7 0 100 c1 /\ eff Z c0 0 <= 0 /\
+  let ops := [(OTick, 105); (ODeleteExpired, 1000000); (OTick, 2000000); (OSet Z 1 8 (-1), 2000001)] in
+  Forall (fun on => overwrites Z 1 (fst on) = false) ops /\
+  nondecr 100 (map snd ops ++ [3000000]) /\
+  get (fst (run Z rej0 c1 ops)) 1 3000000 = (Some (mkItem 7 0), None).
 Proof.
   vm_compute. repeat split; try reflexivity; auto; try lia; try discriminate.
 Qed.
